@@ -142,6 +142,9 @@ class Det(Base):
         return {self.name + "_cfg": {"source": "fake", "dtype": "integer", "shape": []}}
 
     def configure(self, *args, **kwargs):
+        if self._fault("configure") == "raise":
+            self._log("configure", "raise")
+            raise DevErr(f"{self.name}.configure raised")
         self._log("configure")
         old = self.read_configuration()
         self.cfg += 1
